@@ -245,6 +245,15 @@ func cmdCheck(args []string) int {
 	}
 	solveStart := time.Now()
 	solveAll(obls, secs)
+	xcConfirmed, xcUnconfirmed := -1, -1
+	var xcDisagree []*Obligation
+	if *tier == "thorough" {
+		// second opinion: a solver of another family re-proves what the first one proved
+		xcConfirmed, xcUnconfirmed, xcDisagree = crossCheck(obls, 20)
+		for _, o := range xcDisagree {
+			o.Status, o.Solver, o.Output = "unknown", "solvers-disagree", "one solver proved the obligation, another reports a counter-model"
+		}
+	}
 	solveSecs := time.Since(solveStart).Seconds()
 
 	byName := map[string]*Obligation{}
@@ -375,6 +384,9 @@ func cmdCheck(args []string) int {
 			"broken_contracts":         broken,
 			"vacuous_functions":        vacuous,
 			"per_query_timeout_s":      secs,
+			"cross_check_confirmed":    xcConfirmed,
+			"cross_check_unconfirmed":  xcUnconfirmed,
+			"cross_check_disagreements": len(xcDisagree),
 		},
 		"assumptions": assumptions,
 		"wall_s":      round2(wall),
@@ -388,6 +400,9 @@ func cmdCheck(args []string) int {
 	}
 	fmt.Printf("%s: %d functions, %d obligations, %d discharged, %d violations, %d known findings, %d broken contracts, %d vacuous; load %.1fs vcgen %.1fs solve %.1fs\n",
 		prop, len(funcs), total, discharged, violations, len(knownHit), broken, vacuous, loadSecs, genSecs, solveSecs)
+	if xcConfirmed >= 0 {
+		fmt.Printf("%s: cross-check by a second solver: %d proofs confirmed, %d without a second verdict, %d disagreements\n", prop, xcConfirmed, xcUnconfirmed, len(xcDisagree))
+	}
 	if violations > 0 {
 		return 1
 	}
